@@ -1,7 +1,7 @@
-\* FASTA and FASTQ: files of 1-2 records over 5 adversarial shapes, every buffer size 2..Len+1
+\* FASTA and FASTQ: files of 1-2 records over all the shapes, every buffer size
 CONSTANTS
   Fmts = {"fasta", "fastq"}
-  Sel <- SelQuick
+  Sel <- SelAll
   Big = FALSE
   MaxRecs = 2
   FinalEols = {TRUE, FALSE}
